@@ -147,9 +147,14 @@ def regression_replays(prop):
     return n, bad
 
 
-def run_property(prop, tier, seed, jobs=None, only=None, budget=None):
+def run_property(prop, tier, seed, jobs=None, only=None, budget=None, grid=None, mon=None):
     mod = importlib.import_module(f"props.{prop.lower()}")
     cells = mod.cells(tier)
+    if grid:
+        # experiment mode: this property's monitors on another property's scenario grid
+        other = importlib.import_module(f"props.{grid.lower()}")
+        own = mon.split(",") if mon else getattr(mod, "MON", [prop])
+        cells = [dict(c, monitors=list(own), name=f"[{grid}] " + c["name"]) for c in other.cells(tier) if c.get("world", "pool") == "pool"]
     if only:
         cells = [c for c in cells if only in c["name"]]
     budget = budget or getattr(mod, "BUDGET", {}).get(tier, 600 if tier == "quick" else 3600)
